@@ -182,7 +182,9 @@ class Module:
         self.rel = rel
         self.src = src
         from .normalize import canonical
+        from . import alpha
         self.tree = canonical(ast.parse(src, filename=path))
+        self.alpha_restored = alpha.restore(self.tree, name)
         self.imports: dict[str, str] = {}
         self.defs: dict[str, ast.AST] = {}
         self.assigns: dict[str, ast.AST] = {}
